@@ -8,6 +8,7 @@ from happysimulator.components.sync import Barrier, Condition, Mutex, RWLock, Se
 
 
 class MutexDrv(Drv):
+    contention = True
     family = "sync"
     covers = ("Mutex",)
     ops = ("acquire",)
@@ -23,6 +24,7 @@ class MutexDrv(Drv):
 
 
 class SemaphoreDrv(Drv):
+    contention = True
     family = "sync"
     covers = ("Semaphore",)
     ops = ("acquire", "acquire_two")
@@ -39,6 +41,7 @@ class SemaphoreDrv(Drv):
 
 
 class RWLockDrv(Drv):
+    contention = True
     family = "sync"
     covers = ("RWLock",)
     ops = ("read", "write")
@@ -58,6 +61,7 @@ class RWLockDrv(Drv):
 
 
 class BarrierDrv(Drv):
+    contention = True
     family = "sync"
     covers = ("Barrier",)
     ops = ("wait",)
@@ -74,6 +78,7 @@ class BarrierDrv(Drv):
 
 
 class ConditionDrv(Drv):
+    contention = True
     family = "sync"
     covers = ("Condition",)
     ops = ("wait", "notify")
@@ -99,6 +104,7 @@ class ConditionDrv(Drv):
 
 
 class ResourceDrv(Drv):
+    contention = True
     family = "sync"
     covers = ("Resource",)
     ops = ("acquire", "acquire_two")
